@@ -7,8 +7,6 @@ package interp
 
 //@ trusted func (s *scope) lookup(ident) (sym, level, ok)
 //@   pure
-//@ trusted func childPos(n) (r)
-//@   pure
 
 // getVarDependencies: the visitor records every identifier that denotes another package-level
 // variable — everywhere in the initialiser except the field name of a selector.
